@@ -66,6 +66,23 @@ func main() {
 				os.Exit(2)
 			}
 		}
+	case "trunc":
+		for i := 0; i < *n; i++ {
+			s := *seed*1000003 + int64(i)
+			if *one == 0 && i%*shards != *shard {
+				continue
+			}
+			if *one != 0 {
+				s = *one
+				*n = 1
+			}
+			p := h.TruncProfileFor(*profile, s)
+			name := fmt.Sprintf("%s-%s-%d.ndjson", *family, p.Name, s)
+			if err := h.WriteTrace(filepath.Join(*out, name), h.RunTrunc(s, p)); err != nil {
+				fmt.Fprintln(os.Stderr, "vh:", err)
+				os.Exit(2)
+			}
+		}
 	case "conc":
 		for i := 0; i < *n; i++ {
 			s := *seed*1000003 + int64(i)
